@@ -53,6 +53,9 @@ type Script struct {
 	SilenceMs int `json:"silence_ms"`
 	HoldUs    int `json:"hold_us"`
 	HitUs     int `json:"hit_us"`
+	// HoldTimeoutUs: callers are held this long at the ret.timeout hook (after the select, before unregisterCallback) and
+	// "late i" waits only until just after the deadline: the following "ans i" then finds the entry still registered
+	HoldTimeoutUs int `json:"hold_timeout_us"`
 }
 
 type callRes struct {
@@ -89,6 +92,7 @@ func Drive(in string, index int, w *ev.Writer, seed int64, tracePath string) err
 		jit = splitmix(uint64(seed)*1000003+uint64(sc.ID)) | 1
 	}
 	rec := newRecorder(1<<18, jit)
+	rec.timeoutHold.Store(int64(sc.HoldTimeoutUs))
 	traced := sc.Mode == "traced"
 	if traced {
 		liteclient.VerifHook = rec.hook(liteclient.VerifLocalAddr)
@@ -375,7 +379,11 @@ func (sv *server) run(sc *Script, timeout time.Duration) {
 			if a := sv.arrivalOf(st.I); a != nil {
 				at = a.at
 			}
-			if d := time.Until(at.Add(timeout + 80*time.Millisecond)); d > 0 {
+			margin := 80 * time.Millisecond
+			if sc.HoldTimeoutUs > 0 {
+				margin = time.Duration(sc.HoldTimeoutUs/5) * time.Microsecond
+			}
+			if d := time.Until(at.Add(timeout + margin)); d > 0 {
 				time.Sleep(d)
 			}
 		case "pause":
